@@ -617,6 +617,10 @@ func caseClasses(c *Case, res *runResult, st *stats) []string {
 			if h.LocScheme != "" {
 				add("upload-location:absolute-" + h.LocScheme)
 			}
+			if h.NoMountGrant {
+				add("mount:declined")
+			}
+			add(fmt.Sprintf("anonymous-mount:%d", h.AnonMount))
 			if h.TagPage > 0 || h.RefPage > 0 {
 				add("paged-lists")
 			}
@@ -712,8 +716,26 @@ func caseClasses(c *Case, res *runResult, st *stats) []string {
 	if c.Chunked {
 		add("upload:chunked")
 	}
+	for _, e := range ents {
+		if e.Class == "upload-mount" {
+			add(fmt.Sprintf("observed:mount-answered-%d", e.Status))
+		}
+		if e.Class == "upload-delete" {
+			add("observed:upload-cancel")
+		}
+	}
 	for k, o := range c.Ops {
 		add("op:" + o.Kind)
+		if o.Kind == "bmount" && c.isReg(o.Reg) {
+			if c.isReg(o.Tgt) && o.Tgt != o.Reg {
+				add("op:bmount-cross-registry")
+				if c.hasCreds(o.Reg) && c.hasCreds(o.Tgt) && c.Hosts[o.Tgt].Auth.Ch.Kind != "none" && c.Hosts[o.Tgt].AnonMount == 0 {
+					add("op:bmount-cross-registry-authenticated-target-answers-location")
+				}
+			} else {
+				add("op:bmount-same-registry")
+			}
+		}
 		if k < len(res.errs) {
 			add("op-outcome:" + res.errs[k])
 		}
